@@ -52,6 +52,17 @@ theorem lookup_innermost {σ : Store} (h : ParentsOlder σ) (ρ : Nat) (x : Stri
     σ.lookup ρ x = (chain σ ρ).findSome? (frameBinding σ x) :=
   lookup_eq_chain h ρ x
 
+/-- Without any hypothesis on the store: the lookup is the binding of the nearest frame on the chain
+of OLDER parents (`chainOlder`: a parent link to a frame that is not older ends the chain), and that
+chain is the whole parent chain when parents are older. -/
+theorem lookup_innermost_unconditional (σ : Store) (ρ : Nat) (x : String) :
+    σ.lookup ρ x = (chainOlder σ ρ).findSome? (frameBinding σ x) ∧
+    (ParentsOlder σ → ρ < σ.frames.size → chainOlder σ ρ = chain σ ρ) :=
+  ⟨lookupAux_eq_chainOlderAux σ x (ρ + 1) ρ,
+   fun h hρ => chainOlderAux_eq_chainAux h _ _ ρ (Nat.lt_succ_self ρ) hρ⟩
+
+example : chainOlder σ₀ 1 = [1, 0] := rfl
+
 /-- … spelled out: `some v` iff some frame `i` of the chain binds `x` to `v` and no frame before it
 (nearer to `ρ`) binds `x`; `none` iff no frame of the chain binds `x`. -/
 theorem lookup_innermost_iff {σ : Store} (h : ParentsOlder σ) (ρ : Nat) (x : String) :
